@@ -49,5 +49,6 @@ props! {
     "C06" => c06,
     "C07" => c07,
     "C09" => c09,
+    "C10" => c10,
     "C13" => c13,
 }
